@@ -39,6 +39,7 @@ class World:
         self.stale = set()        # files whose content was discarded while the working log kept an AI entry
         self.carried = set()      # files whose uncommitted AI claims were carried over a partial commit (INITIAL)
         self.k2 = set()           # ... and which a person then edited by hand: positional claims went stale (C03-K2)
+        self.human_dirty = set()  # files a person edited since the last commit that included them (no checkpoint)
 
     # ------------------------------------------------------------ primitives (recorded)
     def _rec(self, step):
@@ -140,6 +141,8 @@ class World:
             # a person edits a file whose carried-over claims are bare line numbers (known class C03-K2)
             self.k2.add(path)
             self.stale.add(path)
+        if actor == "H":
+            self.human_dirty.add(path)
         self.trace.append(("edit", actor, path, kind))
         return path
 
@@ -150,6 +153,7 @@ class World:
         if rc == 0:
             self.pending_ai.clear()
             self.carried.clear()
+            self.human_dirty.clear()
         return rc
 
     def op_commit_index_only(self):
@@ -181,6 +185,10 @@ class World:
         rc, _, _ = self.git("commit", "-q", "-m", f"index{len(self.trace)}")
         if rc == 0:
             self.pending_ai.discard(path)
+            # the work tree still differs from the commit: whatever is tracked for this file from now on is relative to
+            # content git-ai has not seen as a whole (classes C04-K3/K4, C03-K2) — later hand edits of it are not judged
+            self.carried.add(path)
+            self.carried |= self.pending_ai      # every other file with uncommitted agent work is carried over (INITIAL)
         self.trace.append(("commit_index_only", rc, path, shape))
         return rc
 
@@ -335,6 +343,9 @@ class World:
         if rc == 0 and kind != "hard":
             # the undone commit's attributions come back as bare line numbers (INITIAL), like after a partial commit
             self.carried |= set(undone) | self.pending_ai
+            # ... and what a person had typed into those files before the reset (no checkpoint) meets those numbers (K2)
+            self.stale |= self.human_dirty & set(undone)
+            self.k2 |= self.human_dirty & set(undone)
         if kind == "hard":
             self.tainted = True
         elif self.r.chance(3, 4):
